@@ -904,13 +904,305 @@ def state_digest():
         enc(DTDChecker.texthandler.textcontent))
 
 
+# ---------------------------------------------------------------- round 5: FILE IDENTITY — a world of paths
+# One directory per history (`wenv`); file-system operations (`wfs`, plain os calls of the harness: a working copy
+# that is updated, a temp file that is reused) interleaved with operations of compare-locales on PATHS of that
+# directory.  Every compare-locales operation returns the snapshot of the directory it met (`world`): the oracle
+# re-runs the operation in a fresh interpreter on a copy of exactly those files.
+WORLD = {"root": None, "cc": None, "linter": None}
+
+
+def _abs(rel):
+    # no normalisation: "ref/./a.ini", "ref/sub/../a.ini", "ref//a.ini" are passed on as they are
+    return WORLD["root"] + "/" + rel
+
+
+def w_snapshot():
+    """every file and symbolic link under the root: [rel, "f", text] | [rel, "l", target relative to the root]"""
+    root = WORLD["root"]
+    out = []
+    for d, dirs, files in os.walk(root):
+        for f in files + [x for x in dirs if os.path.islink(os.path.join(d, x))]:
+            pth = os.path.join(d, f)
+            rel = os.path.relpath(pth, root).replace(os.sep, "/")
+            if os.path.islink(pth):
+                t = os.readlink(pth)
+                out.append([rel, "l", os.path.relpath(t, root).replace(os.sep, "/") if os.path.isabs(t) else t])
+            else:
+                with open(pth, "rb") as fh:
+                    out.append([rel, "f", fh.read().decode("utf-8", "replace")])
+    out.sort()
+    return out
+
+
+def w_unroot(text):
+    root = WORLD["root"]
+    text = text.replace(root, "<ROOT>")
+    real = os.path.realpath(root)
+    if real != root:
+        text = text.replace(real, "<ROOT>")
+    return text
+
+
+def w_canon(obj):
+    return w_unroot(json.dumps(obj, sort_keys=True))
+
+
+def w_digest():
+    parts = []
+    for rel, kind, data in w_snapshot():
+        parts.append(enc(rel) + ("=" if kind == "f" else ">") + enc(data))
+    incp = P.getParser("a.inc")
+    return "j=%d f=%s w=%s" % (Junk.junkid, "1" if (incp.ctx is not None and incp.ctx.filter_empty_lines) else "0",
+                               ";".join(parts))
+
+
+def _rm(path):
+    if os.path.lexists(path):
+        os.remove(path)
+        return True
+    return False
+
+
+def op_wenv(base, op):
+    root = os.path.join(base, op["root"])
+    shutil.rmtree(root, ignore_errors=True)
+    os.makedirs(root)
+    WORLD["root"] = root
+    WORLD["cc"] = WORLD["linter"] = None
+    return {"canon": "ok"}
+
+
+def op_wrestore(base, op):
+    """the files of a snapshot, in the (empty) root of this process"""
+    for rel, kind, data in op["world"]:
+        pth = _abs(rel)
+        os.makedirs(os.path.dirname(pth), exist_ok=True)
+        if kind == "l":
+            os.symlink(_abs(data), pth)
+        else:
+            with open(pth, "wb") as f:
+                f.write(data.encode("utf-8"))
+    return {"canon": "ok"}
+
+
+def _oserr(e):
+    import errno
+    return {errno.ENOENT: "enoent", errno.ELOOP: "eloop"}.get(e.errno, "oserror-%s" % e.errno)
+
+
+def op_wfs(base, op):
+    """file-system actions of the harness (never through compare-locales):
+    ["write", rel, text, {"keep_mtime": bool}] unlink + create; ["remove", rel]; ["rename", a, b] (os.replace);
+    ["copy", a, b] contents of a (through links) into a NEW file b; ["symlink", rel, target]"""
+    res = []
+    for act in op["do"]:
+        k = act[0]
+        try:
+            if k == "write":
+                pth = _abs(act[1])
+                opts = act[3] if len(act) > 3 else {}
+                old = os.stat(pth) if (opts.get("keep_mtime") and os.path.isfile(pth)) else None
+                _rm(pth)
+                os.makedirs(os.path.dirname(pth), exist_ok=True)
+                with open(pth, "wb") as f:
+                    f.write(act[2].encode("utf-8"))
+                if old is not None:
+                    os.utime(pth, ns=(old.st_atime_ns, old.st_mtime_ns))
+                res.append("ok")
+            elif k == "remove":
+                res.append("ok" if _rm(_abs(act[1])) else "enoent")
+            elif k == "rename":
+                a, b = _abs(act[1]), _abs(act[2])
+                if not os.path.lexists(a):
+                    res.append("enoent")
+                else:
+                    os.makedirs(os.path.dirname(b), exist_ok=True)
+                    os.replace(a, b)
+                    res.append("ok")
+            elif k == "copy":
+                with open(_abs(act[1]), "rb") as f:
+                    data = f.read()
+                b = _abs(act[2])
+                _rm(b)
+                os.makedirs(os.path.dirname(b), exist_ok=True)
+                with open(b, "wb") as f:
+                    f.write(data)
+                res.append("ok")
+            elif k == "symlink":
+                pth = _abs(act[1])
+                _rm(pth)
+                os.makedirs(os.path.dirname(pth), exist_ok=True)
+                os.symlink(_abs(act[2]), pth)
+                res.append("ok")
+            else:
+                raise ValueError(k)
+        except OSError as e:
+            res.append(_oserr(e))
+    r = {"canon": json.dumps(res)}
+    if len(res) == 1:
+        r["model"] = res[0]
+        r["state"] = w_digest()
+    return r
+
+
+def _changed(pre, post):
+    a = {x[0]: x for x in pre}
+    b = {x[0]: x for x in post}
+    return [b[k] for k in sorted(b) if a.get(k) != b[k]] + [[k, "gone", ""] for k in sorted(a) if k not in b]
+
+
+def _wobs(o):
+    j = obs_json(o)
+    j["summary"] = {("null" if k is None else k): v for k, v in j["summary"].items()}
+    return j
+
+
+def _wcc(op):
+    from compare_locales.compare.observer import ObserverList
+    if op.get("cc") == "shared":
+        # ONE ContentComparer for the whole history (as compareProjects keeps one for all files), a new report each time
+        if WORLD["cc"] is None:
+            WORLD["cc"] = ContentComparer()
+        cc = WORLD["cc"]
+        cc.observers = ObserverList(quiet=0)
+    else:
+        cc = ContentComparer()
+    cc.observers.append(Observer())
+    return cc
+
+
+def _wname(op, rel):
+    return op.get("name") or os.path.basename(rel)
+
+
+def op_wcompare(base, op):
+    pre = w_snapshot()
+    name = _wname(op, op["ref"])
+    refp, l10p = _abs(op["ref"]), _abs(op["l10n"])
+    mergep = _abs(op["merge"]) if op.get("merge") else None
+    cc = _wcc(op)
+    exc = None
+    try:
+        cc.compare(File(refp, name), File(l10p, name, locale="de"), mergep, op.get("extra"))
+    except Exception as ex:       # noqa
+        exc = "%s: %s" % (type(ex).__name__, ex)
+    j0 = _wobs(cc.observers.observers[0])
+    res = {"canon": w_canon({"list": _wobs(cc.observers), "obs": j0, "exc": exc, "error": cc.observers.error,
+                             "changed": _changed(pre, w_snapshot())}), "world": pre}
+    if op.get("fmt") in ("ini", "inc") and not op.get("extra") and not op.get("name"):
+        j0 = json.loads(w_unroot(json.dumps(j0)))
+        res["model"] = model_report(j0, name, w_unroot(exc) if exc else exc)
+        if mergep:
+            merged = read(mergep)
+            res["model"] += " ;; " + ("-" if exc else ("nofile" if merged is None else enc(merged)))
+        res["state"] = w_digest()
+    return res
+
+
+def op_wadd(base, op):
+    pre = w_snapshot()
+    name = _wname(op, op["ref"])
+    refp = _abs(op["ref"])
+    l10p = _abs(op.get("l10n") or "l10n-missing/" + name)
+    mergep = _abs(op["merge"]) if op.get("merge") else None
+    cc = _wcc(op)
+    exc = None
+    try:
+        cc.add(File(refp, name), File(l10p, name, locale="de"), mergep)
+    except Exception as ex:       # noqa
+        exc = "%s: %s" % (type(ex).__name__, ex)
+    j0 = _wobs(cc.observers.observers[0])
+    res = {"canon": w_canon({"obs": j0, "exc": exc, "changed": _changed(pre, w_snapshot())}), "world": pre}
+    if op.get("fmt") in ("ini", "inc") and not mergep and not op.get("name") and exc is None:
+        j0 = json.loads(w_unroot(json.dumps(j0)))
+        errs = [it["error"] for it in j0["details"].get(name, []) if "error" in it]
+        if errs:
+            res["model"] = "noread " + enc(errs[0])
+        else:
+            s = j0["summary"].get("de", {})
+            res["model"] = "ok missing=%d missing_w=%d" % (s.get("missing", 0), s.get("missing_w", 0))
+        res["state"] = w_digest()
+    return res
+
+
+def op_wlint(base, op):
+    pre = w_snapshot()
+    curp = _abs(op["cur"])
+    refp = _abs(op["ref"]) if op.get("ref") else None
+    if op.get("linter") == "shared":
+        if WORLD["linter"] is None:
+            WORLD["linter"] = L10nLinter()
+        linter = WORLD["linter"]
+    else:
+        linter = L10nLinter()
+    exc = None
+    out = []
+    try:
+        for r in linter.lint_file(curp, refp, op.get("extra")):
+            out.append(dict(r))
+    except Exception as ex:       # noqa
+        exc = "%s: %s" % (type(ex).__name__, ex)
+    res = {"canon": w_canon({"results": out, "exc": exc, "changed": _changed(pre, w_snapshot())}), "world": pre}
+    if op.get("fmt") in ("ini", "inc") and not op.get("extra"):
+        res["model"] = lint_model(json.loads(w_unroot(json.dumps(out))), exc)
+        res["state"] = w_digest()
+    return res
+
+
+def op_wread(base, op):
+    """p = getParser(path); p.readFile(path); list(p.walk())"""
+    pre = w_snapshot()
+    pth = _abs(op["path"])
+    try:
+        p = P.getParser(pth)
+    except UserWarning:
+        return {"canon": json.dumps({"noparser": op["path"]}), "junk": [], "world": pre}
+    try:
+        p.readFile(pth)
+    except OSError as e:
+        r = {"canon": w_canon({"oserror": str(e)}), "junk": [], "world": pre}
+        if op.get("fmt") in MODEL_FMT:
+            r["model"] = "noread " + enc(w_unroot(str(e)))
+            r["state"] = w_digest()
+        return r
+    ents = list(p.walk())
+    res = {"canon": json.dumps([observe(e) for e in ents]), "junk": [e.key for e in ents if isinstance(e, Junk)], "world": pre}
+    if op.get("fmt") in MODEL_FMT:
+        res["model"] = " | ".join(["done"] + [model_entry(e, op["fmt"]) for e in ents])
+        res["state"] = w_digest()
+    return res
+
+
+def op_wproject(base, op):
+    """TOMLParser().parse(<root>/config) (includes are files of the world, too), the file list of every locale,
+    compareProjects"""
+    from compare_locales.paths import ProjectFiles
+    pre = w_snapshot()
+    exc = None
+    j = None
+    files = None
+    try:
+        cfg = TOMLParser().parse(_abs(op["config"]), env={"l10n_base": _abs(op["l10n_base"])},
+                                 ignore_missing_includes=bool(op.get("ignore_missing")))
+        files = {loc: [[a, b, c, sorted(d or [])] for a, b, c, d in ProjectFiles(loc, [cfg])] for loc in op["locales"]}
+        merge = _abs(op["merge"]) if op.get("merge") else None
+        obs = compareProjects([cfg], op["locales"], _abs(op["l10n_base"]), merge_stage=merge)
+        j = {"list": _wobs(obs), "obs": [_wobs(o) for o in obs]}
+    except Exception as ex:       # noqa
+        exc = "%s: %s" % (type(ex).__name__, ex)
+    return {"canon": w_canon({"report": j, "files": files, "exc": exc, "changed": _changed(pre, w_snapshot())}), "world": pre}
+
+
 OPS = {"parse": op_parse, "hold": op_hold, "reobs": op_reobs, "compare": op_compare, "merge": op_merge,
        "lint": op_lint, "serialize": op_serialize, "add": op_add, "hasparser": op_hasparser, "mozmatch": op_mozmatch, "project": op_project,
        "files": op_files, "env": op_env, "getparser": op_getparser, "rewalk": op_rewalk, "chan": op_chan, "moz": op_moz,
        "mnew": op_mnew, "mwith": op_mwith, "mmatch": op_mmatch, "msub": op_msub, "cnew": op_cnew, "csetloc": op_csetloc,
        "caddrules": op_caddrules, "caddpaths": op_caddpaths, "cfilter": op_cfilter, "calllocales": op_calllocales,
        "dnew": op_dnew, "dknown": op_dknown, "dtext": op_dtext, "junkkey": op_junkkey,
-       "matcherq": op_matcherq, "cfgq": op_cfgq, "mozfn": op_mozfn, "read": op_read, "walk2": op_walk2}
+       "matcherq": op_matcherq, "cfgq": op_cfgq, "mozfn": op_mozfn, "read": op_read, "walk2": op_walk2,
+       "wenv": op_wenv, "wrestore": op_wrestore, "wfs": op_wfs, "wcompare": op_wcompare, "wadd": op_wadd,
+       "wlint": op_wlint, "wread": op_wread, "wproject": op_wproject}
 
 
 def run_ops(base, ops):
@@ -930,9 +1222,9 @@ def run_ops(base, ops):
             finally:
                 sys.stdout = real_stdout
             r["jid"] = [before, Junk.junkid]
-            if "model" in r:
+            if "model" in r and "state" not in r:
                 try:
-                    r["state"] = state_digest()
+                    r["state"] = w_digest() if WORLD["root"] else state_digest()
                 except Exception as ex:     # noqa
                     r["state"] = "DIGEST-EXC %s: %s" % (type(ex).__name__, ex)
             out.append(r)
